@@ -2162,3 +2162,59 @@ Lemma contained_panic_witness :
     attempt_panic true 3 [] (mkcfg 3 [EOn 1] [AEph 1]) g1 = (RErr, g3) /\
     g_hooks g3 = [1] /\ length (g_insts g3) = 1%nat.
 Proof. do 3 eexists. vm_compute. repeat split; reflexivity. Qed.
+
+(* ------------------------------------------------------------------ the steps AFTER a refused attempt
+   A reload (API or SIGUSR1) of a valid configuration restarts instances[0] and succeeds; the list afterwards is
+   the rest of the list followed by the new instance. *)
+Lemma valid_restart_succeeds m step e c g old rest :
+  needs_instance m = true ->
+  g_htlock g = false -> cache_ok g -> g_insts g = old :: rest -> cfg_valid e c = true ->
+  exists g' ni, attempt m step e c g = (ROk, g') /\ g_insts g' = rest ++ [ni] /\ i_cfg ni = c_id c.
+Proof.
+  intros NI L CK GI V. destruct m; try discriminate NI; simpl.
+  - destruct (valid_reload_succeeds step e c g old rest L CK GI V) as (g' & ni & R & I & C & _).
+    exists g', ni. auto.
+  - rewrite do_sigusr1_unfold, GI.
+    assert (CK' : cache_ok (set_hooks g [])) by exact CK.
+    destruct (valid_reload_succeeds step e c (set_hooks g []) old rest L CK' GI V) as (g' & ni & R & I & C & _).
+    cbv zeta. rewrite R. exists g', ni. auto.
+Qed.
+
+(* after ANY refused attempt (every mode, every kind of failure at every stage - a failing startup callback
+   included) on a process with one running site: the next reload of a valid configuration succeeds and the
+   instance list is exactly the new instance; and the reload after that succeeds again and the list is exactly
+   ITS instance - the instance that is restarted is never one that a failed start left behind *)
+Theorem two_reloads_after_a_refused_attempt m step e c g r g1 old m1 s1 c1 m2 s2 c2 :
+  wf g -> g_htlock g = false -> g_insts g = [old] ->
+  attempt m step e c g = (r, g1) -> r <> ROk ->
+  needs_instance m1 = true -> needs_instance m2 = true ->
+  cfg_valid e c1 = true -> cfg_valid e c2 = true ->
+  g_insts g1 = [old] /\
+  exists g2 n1 g3 n2,
+    attempt m1 s1 e c1 g1 = (ROk, g2) /\ g_insts g2 = [n1] /\ i_cfg n1 = c_id c1 /\
+    attempt m2 s2 e c2 g2 = (ROk, g3) /\ g_insts g3 = [n2] /\ i_cfg n2 = c_id c2.
+Proof.
+  intros W L GI A NR N1 N2 V1 V2.
+  destruct (failed_attempt_loses_nothing _ _ _ _ _ _ _ W A NR) as (I1 & L1 & _).
+  rewrite GI in I1. rewrite L in L1. split; [exact I1|].
+  pose proof (attempt_wf _ _ _ _ _ _ _ W A) as W1.
+  destruct W1 as (Wa & Wb & CK1).
+  destruct (valid_restart_succeeds m1 s1 e c1 g1 old [] N1 L1 CK1 I1 V1) as (g2 & n1 & A1 & I2 & C1).
+  pose proof (attempt_wf _ _ _ _ _ _ _ (conj Wa (conj Wb CK1)) A1) as (_ & _ & CK2).
+  pose proof (attempt_lock _ _ _ _ _ _ _ A1) as L2. rewrite L1 in L2.
+  simpl in I2.
+  destruct (valid_restart_succeeds m2 s2 e c2 g2 n1 [] N2 L2 CK2 I2 V2) as (g3 & n2 & A2 & I3 & C2).
+  exists g2, n1, g3, n2. simpl in I3. auto 10.
+Qed.
+
+Lemma two_reloads_witness :
+  exists g1 g2,
+    attempt Load 1 [] (mkcfg 1 [] [AEph 1]) g0 = (ROk, g1) /\ wf g1 /\ g_htlock g1 = false /\
+    (exists old, g_insts g1 = [old]) /\
+    attempt Sigusr1 2 [] (mkcfg 2 [ELog 1 50 true; ELog 3 7 false] [AEph 1]) g1 = (RErr, g2) /\
+    cfg_valid [] (mkcfg 3 [] [AEph 1]) = true /\ cfg_valid [] (mkcfg 4 [EOn 1] [AEph 1]) = true.
+Proof.
+  eexists. eexists. split; [vm_compute; reflexivity|]. split.
+  - eapply (run_wf [OAttempt Load (mkcfg 1 [] [AEph 1])] 1 [] g0 _ _ _ wf_g0). vm_compute. reflexivity.
+  - split; [reflexivity|]. split; [eexists; reflexivity|]. split; [vm_compute; reflexivity|]. split; reflexivity.
+Qed.
